@@ -101,7 +101,7 @@ func c03(c *Ctx) {
 	rd.readUnmask("C03.mask-thread")
 	rd.owners("C03.mask-thread", rd.readMaskPos, "(*Conn).advanceFrame", "(*messageReader).Read")
 	rd.owners("C03.mask-thread", rd.readMaskKey, "(*Conn).advanceFrame")
-	rd.owners("C03.remaining", rd.readRemaining, "(*Conn).setReadRemaining")
+	rd.ownersOr("C03.remaining", rd.readRemaining, rd.storesNonNeg, "(*Conn).setReadRemaining")
 	rd.owners("C03.final-flag", rd.readFinal, "(*Conn).advanceFrame", "newConn")
 	rd.remainingRule("C03.remaining")
 	rd.eofProvenance("C03.eom")
@@ -153,6 +153,33 @@ func (rd *reader) b0Compatible(p *core.Path, P *core.Term, b0 int) bool {
 
 // owners: field f is stored (or copied into) only inside the named functions.
 func (rd *reader) owners(rule string, f *types.Var, allowed ...string) {
+	rd.ownersOr(rule, f, nil, allowed...)
+}
+
+// storesNonNeg: every store of fn into f stores a value that the facts of its
+// path bound below by 0 (what setReadRemaining guarantees by its test; a
+// function that inlines it must establish the same).
+func (rd *reader) storesNonNeg(rule string, fn *ssa.Function, f *types.Var) bool {
+	c := rd.c
+	ok, n := true, 0
+	c.explore(rule, fn, core.Opts{Unroll: 0, Inline: rd.inl(), MaxPaths: 400000}, func(p *core.Path) {
+		for i := range p.Events {
+			e := &p.Events[i]
+			if e.Kind != core.EvStore || !isFieldAddr(e.Addr, f) {
+				continue
+			}
+			n++
+			if lo, has := p.X.Lower(e.Val); !has || lo < 0 {
+				ok = false
+			}
+		}
+	})
+	return ok && n > 0
+}
+
+// ownersOr: as owners, but a writer outside the list is accepted when alt
+// proves the invariant the owner exists to keep.
+func (rd *reader) ownersOr(rule string, f *types.Var, alt func(rule string, fn *ssa.Function, f *types.Var) bool, allowed ...string) {
 	c, r := rd.c, rd.c.R
 	allow := map[string]bool{}
 	for _, a := range allowed {
@@ -190,6 +217,9 @@ func (rd *reader) owners(rule string, f *types.Var, allowed ...string) {
 		if direct {
 			// a helper extracted by a later refactoring writes on behalf of the functions it is inlined into
 			for _, h := range c.hostsOf(fn) {
+				if alt != nil && !allow[shortFn(h)] && alt(rule, h, f) {
+					allow[shortFn(h)] = true
+				}
 				writers[shortFn(h)] = true
 			}
 		}
